@@ -752,6 +752,12 @@ class Term(Container):
                                           "multiple fock matrix elements with "
                                           f"intersecting indices: {self}")
             sub.update(sub_obj)
+        # resolve chains of substitutions (f_ij f_jk: k -> j -> i), because the
+        # substitutions are applied simultaneously
+        for old, new in sub.items():
+            while new in sub:
+                new = sub[new]
+            sub[old] = new
         # if term is part of a polynom -> return the sub dict and perform the
         # substitution in the polynoms parent term object.
         # provide the target indices to the returned expression, because
